@@ -286,6 +286,14 @@ Proof.
   unfold sites_ok in Hs. rewrite forallb_forall in Hs. exact (Hs _ Hin).
 Qed.
 
+(** Steps made through a FileSystemChain (any prefix; [chain_calls] generated from filesys.py) are steps of such histories:
+    a chain step is the member's site run on the string the chain computed, i.e. [chain_access] of the round-2 model. *)
+Theorem c18_history_chain_steps_are_steps :
+  forall g cwd root_arg c s i op,
+    chain_step g cwd root_arg true c s i = Some op ->
+    op_plain g cwd op = chain_access g cwd root_arg i c s /\ oc_root op = root_arg /\ oc_con op = true /\ oc_site op = s.
+Proof. exact chain_step_is_chain_access. Qed.
+
 (** The history is the step-by-step evaluation of the operations model: the table is invisible (any guard). *)
 Theorem c18_history_is_stepwise_model :
   forall with_flag g cwd evict, only_drops evict ->
